@@ -47,6 +47,7 @@ package mqtt
 //@   ensures[C01,C03] pushed: !guardVal(&c.stopped) ==> result == nil && len(c.taskQueue) == ssLen(guardSlice(&c.taskQueue))+1 &&
 //@        forall(0, ssLen(guardSlice(&c.taskQueue)), func(i int) bool { return sameFunc(c.taskQueue[i], ssAt(guardSlice(&c.taskQueue), i)) }) &&
 //@        sameFunc(c.taskQueue[len(c.taskQueue)-1], task)
+//@   ensures[C01] wakes_loop: !guardVal(&c.stopped) ==> evCount("select") == 1 && evArg[chan struct{}]("select", 0, 0) == c.chTask && evRet[int]("select", 0, 0) <= 0
 //@   ensures[C11] nonblocking: evCount("recv") == 0 && evCount("send") == 0
 
 //@ func (*RetryClient).Publish
@@ -56,6 +57,7 @@ package mqtt
 //@   requires !c.DirectlyPublishQoS0
 //@   note the statement is for the default (queued) publishing mode
 //@   assigns nothing
+//@   ensures[C01] refused_not_accepted: evCount("(*RetryClient).pushTask") == 1 && evRet[error]("(*RetryClient).pushTask", 0, 0) != nil ==> result != nil
 //@   ensures[C01,C03] accepted: result == nil ==> evCount("(*RetryClient).pushTask") == 1 &&
 //@        closureIs(evArg[taskFn]("(*RetryClient).pushTask", 0, 2), "(*RetryClient).Publish$1") &&
 //@        *closureVarN[**Message](evArg[taskFn]("(*RetryClient).pushTask", 0, 2), "(*RetryClient).Publish$1", "message") == message &&
@@ -77,6 +79,7 @@ package mqtt
 //@   props C01 C03
 //@   requires c != nil && ctx != nil
 //@   assigns nothing
+//@   ensures[C01] refused_not_accepted: evCount("(*RetryClient).pushTask") == 1 && evRet[error]("(*RetryClient).pushTask", 0, 0) != nil ==> result1 != nil
 //@   ensures[C01,C03] accepted: result1 == nil ==> evCount("(*RetryClient).pushTask") == 1 &&
 //@        closureIs(evArg[taskFn]("(*RetryClient).pushTask", 0, 2), "(*RetryClient).Subscribe$1") &&
 //@        sameSlice(*closureVarN[*[]Subscription](evArg[taskFn]("(*RetryClient).pushTask", 0, 2), "(*RetryClient).Subscribe$1", "subs"), subs) &&
@@ -87,6 +90,7 @@ package mqtt
 //@   props C01 C03
 //@   requires c != nil && ctx != nil
 //@   assigns nothing
+//@   ensures[C01] refused_not_accepted: evCount("(*RetryClient).pushTask") == 1 && evRet[error]("(*RetryClient).pushTask", 0, 0) != nil ==> result != nil
 //@   ensures[C01,C03] accepted: result == nil ==> evCount("(*RetryClient).pushTask") == 1 &&
 //@        closureIs(evArg[taskFn]("(*RetryClient).pushTask", 0, 2), "(*RetryClient).Unsubscribe$1") &&
 //@        sameSlice(*closureVarN[*[]string](evArg[taskFn]("(*RetryClient).pushTask", 0, 2), "(*RetryClient).Unsubscribe$1", "topics"), topics) &&
@@ -478,7 +482,9 @@ package mqtt
 //@   relies c.chConnSwitch == nil || !closed(c.chConnSwitch)
 //@   assigns c.chTask
 //@   ensures[C01] installed: c.cli == cli && c.chConnectErr != nil && fresh(c.chConnectErr) && c.chConnSwitch != nil && fresh(c.chConnSwitch)
-//@   ensures[C01] one_loop: evCount("go:(*RetryClient).SetClient$1") <= 1
+//@   let task0 chan struct{} = c.chTask
+//@   ensures[C01] one_loop: evCount("go:(*RetryClient).SetClient$1") == ite(task0 == nil, 1, 0) && c.chTask != nil && (task0 != nil ==> c.chTask == task0)
+//@   ensures[C01,C02] switch_signalled: guardVal(&c.chConnSwitch) != nil ==> evCount("close") == 1 && evArg[chan struct{}]("close", 0, 0) == guardVal(&c.chConnSwitch)
 
 //@ func (*RetryClient).Disconnect$1
 //@   role task
@@ -499,6 +505,8 @@ package mqtt
 //@   assigns nothing
 //@   ensures[C09,C11] stops: c.stopped && evCount("close") == 1 && evCount("(*RetryClient).pushTask") == 1 &&
 //@        closureIs(evArg[taskFn]("(*RetryClient).pushTask", 0, 2), "(*RetryClient).Disconnect$1")
+//@   ensures[C09] disconnect_task_first: evIndex("(*RetryClient).pushTask", 0) < evIndex("close", 0) && evArg[chan struct{}]("close", 0, 0) == c.chTask &&
+//@        *closureVarN[**RetryClient](evArg[taskFn]("(*RetryClient).pushTask", 0, 2), "(*RetryClient).Disconnect$1", "c") == c
 //@   ensures[C11] nonblocking: evCount("select") == 0 && evCount("recv") == 0 && evCount("send") == 0
 
 //@ func (*RetryClient).Ping
@@ -509,6 +517,7 @@ package mqtt
 //@   assigns any BaseClient.stats
 //@   ensures[C18] request_ctx: evCount("(*BaseClient).Ping") == 1 && evCount("(*RetryClient).requestContext") == 1 &&
 //@        evArg[context.Context]("(*BaseClient).Ping", 0, 1) == evRet[context.Context]("(*RetryClient).requestContext", 0, 0)
+//@   ensures[C18] on_current_client: evArg[*BaseClient]("(*BaseClient).Ping", 0, 0) == guardVal(&c.cli) && evArg[context.Context]("(*RetryClient).requestContext", 0, 1) == ctx
 
 //@ func (*RetryClient).Client
 //@   mode int
